@@ -390,6 +390,7 @@ pub fn gen_u2(c: &mut Chooser, rule_counts: &[usize], player_counts: &[usize]) -
             let key = pick(c, &[
                 UStr::plain(["ServerMode", "AdminName", "Mutator"][i]),
                 UStr::plain("mutator"),
+                UStr::plain("MUTATOR"),
                 UStr::plain("GamePassword"),
                 UStr::plain("AdminName"),
                 // rule names padded with blanks (some servers do): still their own keys
